@@ -14,7 +14,9 @@ THEOREMS = ['MindsVerif.Props.C01.' + n for n in (
     'C01_partial_literal_sequence', 'C01_regress_parameter', 'C01_regress_variable',
     'C01_partial_compose', 'C01_partial_select_expr',
     'C01_partial_select_expr_sqlite', 'C01_partial_select_expr_mysql', 'C01_partial_select_expr_mindsdb',
-    'C01_partial_tokens', 'C01_partial_tokens_compose', 'C01_review_tokens_select_expr', 'C01_review_opm_print_ne')]
+    'C01_partial_tokens', 'C01_partial_tokens_compose', 'C01_review_tokens_select_expr', 'C01_review_opm_print_ne',
+    'C01_hist_pure', 'C01_hist_of_histIndep', 'C01_print_history_free', 'C01_texts_of_histIndep', 'C01_memo_histIndep_iff',
+    'C01_ident_memo_histIndep_iff', 'C01_ident_memo_harmless', 'C01_witness_history_upper')]
 ASSUME = [
     'C01_full (over the real parse_sql / to_string / copy) is neither proved nor refuted as a whole; it is proved per layer, each for all '
     'inputs of the layer: string constants in sequence (C01_partial_literal_sequence over the C04 codec model; tie = literal-sequence '
@@ -35,6 +37,16 @@ ASSUME = [
     'Lex.parameterToString / Lex.variableToString (models of Parameter.get_string / Variable.get_string) are compared with the real '
     'printers by the atom-printers stream',
     'trees are compared by to_tree() and str() (the library\'s own equality), printing by to_string()',
+    'every layer theorem speaks about ONE printer function print : Tree -> Text: that the real to_string is a function of the tree '
+    'alone (no module-level table, per-class attribute or object identity consulted) is the model\'s claim C01_print_history_free '
+    '(atomPrinter = pure atomPrint: a run over any history prints history.map atomPrint); it is tied to the code by the '
+    'print-history stream: Driver/PrintHist.lean vs the real Identifier / Constant / Variable / Parameter classes printing whole '
+    'histories of confusable atoms (forward / reversed, each group alone in a state in which nothing was printed, and cumulatively), '
+    'and watched at statement level by the history-aware oracle (same statement => same text and same verdict in every run and in '
+    'the check\'s own process).  "Nothing was printed" states are forks of an interpreter that only loaded the lexer / parser modules; '
+    'replays use separate interpreters.  The families of confusables bound what is seen: key functions upper / lower / casefold / '
+    'title / NFKC / accent folding / ASCII projection / strip / blank collapsing / word characters / 16-character prefix, value '
+    'equality 1 = 1.0 = TRUE, name vs string vs variable spellings, case twins of corpus statements',
 ]
 
 CACHE = os.path.join(common.ROOT, 'corpus', 'c01_shrink_cache.json')
@@ -90,6 +102,46 @@ class Classifier:
             self.chk.classify(f, rt.kf_match)
             self.chk.fail({k: v for k, v in f.items() if k != 'tree'})
         return f
+
+
+def verify_fresh(chk, cl):
+    """every NEW failure found in this process must fail alone in a state in which nothing was printed; one that does not
+    depends on what this process printed before: look for its history among the confusables of its own names and values,
+    report it as a history failure (replay = history + statement), and never first with a replay that shows nothing"""
+    import time
+    from tools.harness import printhist as hist
+    new = [f for f in chk.failures if not f.get('kf') and f.get('history') is None][:200]
+    if not new:
+        return
+    try:
+        res = hist.fresh_runs([hist.trial_ops([], [f['dialect'], f['shrunk']]) for f in new])
+    except Exception as e:
+        chk.notes.append('fresh verification failed: %s' % e)
+        return
+    suspects = [f for f, r in zip(new, res) if r[0][1] in (None, 'ok')]
+    deadline = time.time() + 45
+    tail = []
+    for k, f in enumerate(suspects):
+        chk.failures.remove(f)
+        found = None
+        if k < 4 and time.time() < deadline:
+            try:
+                found = hist.find_history(f['dialect'], f['shrunk'])
+            except Exception as e:
+                chk.notes.append('history search failed: %s' % e)
+        if found:
+            g = history_failure(f, found[0], found[1], found[2], 0)
+            if not any(x.get('cls') == g['cls'] for x in chk.failures):
+                chk.classify(g, rt.kf_match)
+                chk.failures.insert(0, g)
+        else:
+            f['history'] = []
+            f['needs_history'] = True
+            f['desc'] += ' — fails in the process of the check only: NOT reproduced when nothing was printed before (depends on the history of the process)'
+            tail.append(f)
+    chk.failures.extend(tail)
+    if suspects:
+        chk.samples.append(dict(failures_not_reproduced_in_a_fresh_state=len(suspects)))
 
 
 def run_case(chk, cl, d, text, src, dist, tag):
@@ -624,6 +676,216 @@ def rawtext_stream(chk, cl, dist, quick):
             # the same statement with the layout applied outside the embedded text as well
             run_case(chk, cl, d, ('CREATE VIEW v%sAS%s(%s)' % (seps[0], seps[-1], inner)), 'rawtext', dist, 'rawtext/%s' % d)
 
+# ------------------------------------------------------------------------------------------ printing histories
+# The printed form must be a function of the tree alone.  Every other stream looks at one statement at a time, in one
+# process whose state is whatever the earlier streams left behind; a printer that remembers decisions in process state
+# (keyed by a non-injective normal form of a name, by value equality, by object identity, in a per-class attribute) is
+# seen only by chance.  Here the statements of confusable groups are printed in fresh interpreters in opposite orders and
+# in this process; texts and verdicts must agree (tools/harness/printhist.py).  Model side: Driver/PrintHist.lean.
+def atom_word(a):
+    from tools.harness.lexh import enc
+    if a[0] == 'I':
+        return 'I ' + '|'.join(enc(p) for p in a[1])
+    if a[0] == 'S':
+        return 'S ' + enc(a[1])
+    if a[0] == 'V':
+        return 'V%d %s' % (a[1], enc(a[2]))
+    return 'P ' + enc(a[1])
+
+
+def history_failure(f0, history, fresh, after, tests):
+    """the failure record of a statement observed differently after `history` than in a state in which nothing was printed"""
+    bad_after = after[1] != 'ok'
+    grave = bad_after and fresh[1] == 'ok'
+    f = dict(f0, history=history, printed=after[0], printed_fresh=fresh[0], verdict_fresh=fresh[1], verdict_after=after[1],
+             msg=after[2], tests=tests, kind=('history-' + after[1].split(':')[0]) if grave else 'print-history',
+             exc=after[1].split(':', 1)[1] if grave else '')
+    f['cls'] = f['class'] = rt.class_key(f)
+    f['desc'] = '%s: %r prints %r when nothing was printed before (%s) but %r (%s %s) after %s was printed' % (
+        f['dialect'], f['shrunk'][:200], fresh[0], fresh[1], after[0], after[1], (after[2] or '')[:80],
+        ' ; '.join('%s %r' % (a, b[:120]) for a, b in history[:3]) + (' … (%d statements)' % len(history) if len(history) > 3 else ''))
+    return f
+
+
+# process state that printing is known to write, vetted: RESERVED_KEYWORDS is completed by the first call of
+# get_reserved_words() with the token names of the two lexers and is the same set ever after
+VETTED_STATE = ['mindsdb_sql.parser.ast.select.identifier.RESERVED_KEYWORDS']
+
+
+def history_stream(chk, cl, dist, quick, deep=False):
+    """runs: every group alone in a state in which nothing was printed, members forward / reversed (forked from an
+    interpreter that only loaded the parsers); all groups in one interpreter forward / reversed (history accumulates); this
+    process (history = all other streams).  Same statement => same text and same verdict in all of them."""
+    import time
+    from tools.harness import printhist as hist, corpus
+    sfx = ':deeper' if deep else ''
+    from tools.harness.lexh import dec
+    groups = hist.build_groups(chk.seed, 'deep' if deep else quick, ID_CONTEXTS, LIT_CONTEXTS, corpus.load())
+    servers = []   # (tag, single-group jobs, cumulative run): one interpreter each, in parallel
+    for rev in (False, True):
+        jobs = [hist.ops_of([dict(G)], reverse=rev) for G in groups]
+        for k, o in enumerate(jobs):            # group index inside a single-group run is 0: restore it
+            for op in o:
+                op[1] = k
+        servers.append(('reverse' if rev else 'forward', jobs, None))
+        if not rev or not quick or deep:     # quick: one cumulative run (forward); this process is a second, longer one
+            servers.append(('reverse' if rev else 'forward', [], hist.ops_of(groups, reverse=rev)))
+    if not quick:
+        rng = common.rng_for(chk.seed, 'C01/history-orders')
+        o = list(range(len(groups)))
+        rng.shuffle(o)
+        servers.append(('shuffled', [], hist.ops_of(groups, order=o)))
+    try:
+        handles = [hist.start(jobs, cum) for _, jobs, cum in servers]
+    except Exception as e:
+        chk.oblige('probe:history-runs' + sfx, 'probe', False, 'cannot start a fresh interpreter: %s' % e)
+        return
+    # model: the texts of every run
+    lines = []
+    for _, jobs, cum in servers:
+        for o in jobs + ([cum] if cum else []):
+            lines.append(' '.join(atom_word(op[3]) for op in o if op[0] == 'A') or 'P 63')
+    outs = None
+    try:
+        outs = common.lean_run('PrintHist', lines)
+    except Exception as e:
+        chk.oblige('corr:print-history' + sfx, 'correspondence', False, 'driver failed: %s' % e)
+    # this process (its history = all the other streams)
+    main, pending = {}, []
+    for g, G in enumerate(groups):
+        for i, (d, text) in enumerate(G['cases']):
+            s, v, msg, tree, r = hist.observe(d, text)
+            main[(g, i)] = [s, v, msg]
+            chk.count((d, text))
+            tag = 'history/%s' % d
+            if r is None:
+                dist[tag + '/rejected'] = dist.get(tag + '/rejected', 0) + 1
+            elif r == 'ok':
+                dist[tag + '/ok'] = dist.get(tag + '/ok', 0) + 1
+            else:
+                dist[tag + '/' + r['kind']] = dist.get(tag + '/' + r['kind'], 0) + 1
+                pending.append(((g, i), d, text, r, 'history:' + G['name']))
+    try:
+        results = [hist.finish(h) for h in handles]
+    except Exception as e:
+        chk.oblige('probe:history-runs' + sfx, 'probe', False, str(e)[-1500:])
+        return
+    flat = []      # (run name, ops, result)
+    for (tagk, jobs, cum), res in zip(servers, results):
+        for o, r in zip(jobs, res['jobs']):
+            flat.append(('group-alone-' + tagk, o, r))
+        if cum:
+            flat.append(('all-groups-' + tagk, cum, res['cumulative']))
+    chk.oblige('probe:history-runs' + sfx, 'probe', True, '%d runs (%d of one group in a state where nothing was printed, %d cumulative), '
+               '%d groups, %d statements, %d atoms' % (len(flat), sum(len(j) for _, j, _ in servers), sum(1 for _, _, c in servers if c), len(groups),
+                                                      sum(len(G['cases']) for G in groups), sum(len(G['atoms']) for G in groups)))
+    # process state written while the family was printed (information; anything beyond the vetted list makes the stream
+    # look deeper: more code points per key function, all contexts)
+    written = sorted({w for res in results for w in (res.get('state_written') or [])})
+    extra_state = [w for w in written if w not in VETTED_STATE]
+    chk.samples.append(dict(process_state_written_while_printing=written, not_vetted=extra_state))
+    # (a) correspondence of the atom printers over whole histories
+    if outs is not None:
+        n, diverged, first = 0, 0, None
+        for (rname, ops, res), o in zip(flat, outs):
+            model = [dec(w) for w in o.split(' ')] if o.strip() else []
+            k = 0
+            recent = []
+            for op, r in zip(ops, res):
+                if op[0] != 'A':
+                    continue
+                n += 1
+                m = model[k] if k < len(model) else None
+                k += 1
+                if r != m:
+                    diverged += 1
+                    first = first or dict(run=rname, atom=op[3], printed_before_in_this_run=recent[-6:], model=m, impl=r)
+                recent.append(op[3])
+        chk.corr_result('print-history' + sfx, n, diverged, first, {'runs': len(flat)})
+    # (b) the same statement in every run: same text, same verdict
+    seen = {}
+    where = {}     # key -> [(run name, statements of the run, position, observation)]
+    for rname, ops, res in flat:
+        cs = [(op, r) for op, r in zip(ops, res) if op[0] == 'C']
+        for pos, (op, r) in enumerate(cs):
+            key = (op[1], op[2])
+            seen.setdefault(key, []).append(r[:2])
+            where.setdefault(key, []).append((rname, cs, pos, r))
+    deviating, main_only = [], []
+    for key in sorted(main):
+        obs = seen.get(key, [])
+        if any(x != obs[0] for x in obs[1:]):
+            deviating.append(key)             # the runs with a known history disagree: can be minimised
+        elif obs and main[key][:2] != obs[0]:
+            main_only.append(key)             # only this process (unknown, long history) deviates
+    for key, d, text, r, src in pending:
+        if key not in deviating and key not in main_only:          # fails the same way in every run: an ordinary failure of the round trip
+            cl.classify(d, text, r, src)
+    twice = [(rname, op[1], r) for rname, ops, res in flat for op, r in zip(ops, res) if op[0] == 'E' and r]
+    dist['history/summary' + sfx] = 'groups=%d statements=%d runs=%d deviating=%d deviating-in-this-process-only=%d printed-twice-differs=%d' % (
+        len(groups), len(main), len(flat) + 1, len(deviating), len(main_only), len(twice))
+    unexplained, trials, tried = [], 0, set()
+    for key in main_only[:3]:
+        d, text = groups[key[0]]['cases'][key[1]]
+        unexplained.append(dict(dialect=d, text=text, every_run_with_known_history=seen[key][0], this_process=main[key]))
+    deadline = time.time() + 90          # deeper search only when something deviates; bounded
+    for key in deviating:
+        g, i = key
+        d, text = groups[g]['cases'][i]
+        info = {}
+        rt.oracle(d, text, info)
+        tree = info.get('tree')
+        feats = sorted(rt.features(d, text, tree, info.get('printed'))) if tree is not None else []
+        root = type(tree).__name__
+        pre_cls = '%s|%s' % (root, ','.join(feats))
+        if pre_cls in tried or len(tried) >= 4:
+            continue
+        tried.add(pre_cls)
+        found = None
+        # the runs in which the statement was seen with something printed before it, shortest history first
+        for rname, cs, pos, r in sorted(where.get(key, []), key=lambda w: w[2]):
+            if not pos or time.time() > deadline:
+                continue
+            prefix = [[o[3], o[4]] for o, _ in cs[:pos]]
+            within = [[o[3], o[4]] for o, _ in cs[:pos] if o[1] == g]
+            try:
+                found = hist.minimise([d, text], within, prefix, deadline)
+            except Exception as e:
+                chk.notes.append('history minimisation failed: %s' % e)
+            if found:
+                break
+        if not found:
+            unexplained.append(dict(dialect=d, text=text, observations={w[0]: w[3] for w in where.get(key, [])}, this_process=main[key]))
+            continue
+        history, fresh, after, nt = found
+        trials += nt
+        f = history_failure(dict(root=root, feats=feats, attrs=rt.root_attrs(tree), dialect=d, text=text, shrunk=text,
+                                 src='history:' + groups[g]['name']), history, fresh, after, nt)
+        cl.n_fail += 1
+        cl.by_class[f['cls']] = cl.by_class.get(f['cls'], 0) + 1
+        chk.classify(f, rt.kf_match)
+        chk.fail(f)
+    for rname, g, bad in twice[:1]:
+        i, s1, s2 = bad[0]
+        d, text = groups[g]['cases'][i]
+        f = dict(kind='print-twice-differs', exc='', root='', feats=[], attrs=[], dialect=d, text=text, shrunk=text,
+                 history=[c for c in groups[g]['cases']], group_ops=hist.ops_of([dict(groups[g], keep=True)], reverse='reverse' in rname),
+                 printed=s2, printed_fresh=s1, src='history:' + groups[g]['name'])
+        f['cls'] = f['class'] = 'print-twice-differs|' + groups[g]['name'].split(':')[0]
+        f['desc'] = '%s: the tree of %r printed %r, and %r again after its confusables were printed (run %s)' % (d, text[:200], s1, s2, rname)
+        cl.n_fail += 1
+        chk.classify(f, rt.kf_match)
+        chk.fail(f)
+    chk.oblige('probe:print-independent-of-history' + sfx, 'probe', not unexplained,
+               '' if not unexplained else 'printed text / verdict differs between runs, no small history found: %s'
+               % json.dumps(unexplained[:3], ensure_ascii=False)[:1500])
+    chk.samples.append(dict(history_runs=dist['history/summary' + sfx], minimisation_trials=trials))
+    if quick and not deep and extra_state and not deviating and not any(f.get('history') is not None for f in chk.failures):
+        # printing writes process state nobody vetted and the quick family saw no effect: run the thorough family once
+        dist['history/deeper'] = 'state written: ' + ', '.join(extra_state)[:300]
+        history_stream(chk, cl, dist, quick, deep=True)
+
+
 # ------------------------------------------------------------------------------------------ SELECT skeleton
 def pay_sql(n, role):
     if role == 'from':
@@ -893,6 +1155,13 @@ def run(chk):
     sequence_stream(chk, cl, dist, quick)
     rawtext_stream(chk, cl, dist, quick)
     skeleton_stream(chk, cl, dist, quick)
+    import time, resource
+    t0, c0, k0 = time.time(), time.process_time(), resource.getrusage(resource.RUSAGE_CHILDREN)
+    history_stream(chk, cl, dist, quick)      # last: this process then has the longest history
+    verify_fresh(chk, cl)
+    k1 = resource.getrusage(resource.RUSAGE_CHILDREN)
+    dist['history/seconds'] = 'wall %.1f, cpu %.1f (this process) + %.1f (interpreters, in parallel)' % (
+        time.time() - t0, time.process_time() - c0, k1.ru_utime + k1.ru_stime - k0.ru_utime - k0.ru_stime)
     # known findings still reproduce?
     for k in chk.kf:
         if k.get('status') != 'open':
@@ -912,6 +1181,9 @@ def run(chk):
                                     '(parenthesised operands on either side, any nesting) round-trips, parentheses flags included'))
     chk.samples.append(dict(theorem='C01_partial_literal_sequence : sepsOK items → readSeq (items.map (·.2)) (printSeq items) = some (items.map (·.1)) '
                                     '— a string constant ends where the printer ended it, whatever follows'))
+    chk.samples.append(dict(theorem='C01_print_history_free : (atomPrinter reserved).after h a = atomPrint reserved a ∧ (atomPrinter reserved).texts h = '
+                                    'h.map (atomPrint reserved) — the printed form is a function of the tree alone; C01_memo_histIndep_iff : HistIndep (memo key f) ↔ '
+                                    '∀ a b, key a = key b → f a = f b'))
     chk.samples.append(dict(theorem='C01_full_of_roundtrip_and_copy : (∀ txt t, parse txt = some t → parse (print t) = some t) → '
                                     '(∀ txt t, parse txt = some t → print (copy t) = print t) → C01_full parse print copy'))
     for cls, cnt in sorted(cl.by_class.items(), key=lambda x: -x[1])[:6]:
@@ -935,6 +1207,17 @@ def replay(path):
     if not f:
         print(json.dumps(data, indent=1)[:3000])
         return 1
+    if f.get('history') is not None:
+        from tools.harness import printhist as hist
+        if f.get('group_ops'):
+            res = hist.fresh_runs([f['group_ops']])[0]
+            bad = [r for op, r in zip(f['group_ops'], res) if op[0] == 'E' and r]
+            print('fresh interpreter, one group, trees kept alive: printed twice differs: %s' % json.dumps(bad, ensure_ascii=False)[:600])
+            bad = 1 if bad else 0
+        else:
+            bad = hist.replay(f)
+        print('REPRODUCED' if bad else 'not reproduced', f.get('cls'))
+        return 1 if bad else 0
     bad = 0
     for text in (f.get('shrunk'), f.get('text')):
         if not text:
